@@ -345,6 +345,18 @@ def run_case(c, d):
         if s != 0 and np.all(np.isfinite(wk)):
             e = N * float(np.sum(wk ** 2)) / s ** 2
             c.compare('Window.enbw', obj.enbw, e, 1e-12, f2, scale=abs(e))
+        # history on the object: looking at its frequency response must not change its samples
+        if N <= 64 and np.all(np.isfinite(wk)) and s != 0:
+            try:
+                _ = obj.response
+                _ = obj.frequencies
+                _ = str(obj)
+                obj.compute_response(norm=True)
+                c.compare('Window.data-unchanged-after-reading-the-response', np.asarray(obj.data), wk, 0.0, f2, scale=1.0)
+                c.compare('Window.mean_square-after-reading-the-response', obj.mean_square, float(np.sum(wk ** 2)) / N, 1e-12,
+                          f2, scale=max(float(np.sum(wk ** 2)) / N, 1e-300))
+            except Exception as exc:
+                c.exception('Window.response', exc, f2)
 
 
 def factory_case(c, W):
